@@ -16,6 +16,15 @@ UNITS = [
               "bit-identical after the call for any OS processor count and configuration",
          trusted=["sysconf(): any count in 1..1024"]),
 ]
+# second anchor of C05: "the wavefront segment dependency map guarantees neighbour availability regardless of the
+# segment grid" — the grid-independent geometric lemmas of C24 (same harness), registered here as well
+UNITS.append(Unit(uid="U05.2.segment_lemmas", prop="C05", harness="harness/c24_seg.c", entry="h_lemmas", mode="plain",
+                  defines=["U24_LEMMAS"], functions=["BAND_INDEX", "ROW_INDEX", "SEGMENT_INDEX", "BAND_TOTAL_COUNT"],
+                  min_obligations=8, cover_functions=[], native=True, timeout=900, backend="cadical",
+                  what="for EVERY segment grid (the grid is what the core count changes) and picture size W<=65, H<=34: the "
+                       "segments holding a superblock's left / upper / upper-right neighbours are in the same or the "
+                       "previous segment row with band <= (upper-right: equal), i.e. they are predecessors in the "
+                       "dependency map whatever the grid - neighbour availability does not depend on the thread geometry"))
 META = {"C05": {
     "level": "proof",
     "explanation": "Configuration-level non-interference: the function deriving the parallel structure from the core count "
